@@ -440,7 +440,7 @@ impl<'a> Ctx<'a> {
             let rhs = if self.r.chance(1, 2) { Term::Int(self.r.range(0, 4)) } else { Term::Var(*self.r.pick(&bound)) };
             body.push(Lit::Cmp(op, Term::Var(x), rhs));
         }
-        if self.cfg.allow_neg && !neg_rels.is_empty() && self.r.chance(1, 4) {
+        if self.cfg.allow_neg && !neg_rels.is_empty() && self.r.chance(1, 3) {
             let rel = *self.r.pick(neg_rels);
             let mut b2 = bound.clone();
             let mut a = self.atom(rel, &mut b2, false);
@@ -513,7 +513,12 @@ pub fn gen_program(r: &mut Rng, cfg: &GenCfg) -> (Program, Vec<&'static str>) {
         pos.extend(lower.iter().cloned()); // bias toward IDB dependencies
         // in the 2-cycle shape the first two heads are one SCC: negating a lower head there would be
         // recursion through negation, so they only negate stored relations
-        let neg: Vec<u32> = if mutual && i <= 1 { edbs.clone() } else { edbs.iter().cloned().chain(lower.iter().cloned()).collect() };
+        // negation prefers derived relations (weight 3): that is where evaluation order matters
+        let neg: Vec<u32> = if mutual && i <= 1 {
+            edbs.clone()
+        } else {
+            edbs.iter().cloned().chain(lower.iter().cloned()).chain(lower.iter().cloned()).chain(lower.iter().cloned()).collect()
+        };
         let nclauses = cx.r.range(1, 3);
         let is_rec = self_rec[i];
         for k in 0..nclauses {
@@ -544,7 +549,7 @@ pub fn gen_program(r: &mut Rng, cfg: &GenCfg) -> (Program, Vec<&'static str>) {
     let mut pos: Vec<u32> = heads.clone();
     pos.extend(heads.iter().cloned());
     pos.push(*cx.r.pick(&edbs));
-    let neg: Vec<u32> = edbs.iter().cloned().chain(heads.iter().cloned()).collect();
+    let neg: Vec<u32> = edbs.iter().cloned().chain(heads.iter().cloned()).chain(heads.iter().cloned()).collect();
     let last = *heads.last().unwrap();
     let q = cx.clause(99, &pos, &neg, Some(last), true);
     clauses.push(q);
@@ -578,4 +583,36 @@ pub fn tuples_key(ts: &[Tuple]) -> String {
     let mut v: Vec<String> = ts.iter().map(|t| format!("{:?}", t.values())).collect();
     v.sort();
     v.join(";")
+}
+
+
+/// A family built around ONE filtered scan `e0(X, c)` that occurs in several rules (what subplan
+/// sharing extracts into a shared view), over an EDB in which that scan has 6-12 rows; the query
+/// negates, joins or aggregates over it. Returns the program and its EDB.
+pub fn gen_shared_family(r: &mut Rng) -> (Program, Edb, Vec<&'static str>) {
+    use Lit::*;
+    let c = r.range(0, 2);
+    let n = r.range(6, 12);
+    let mut e0: Vec<Tuple> = (0..n).map(|x| Tuple::new(vec![Value::Int64(x), Value::Int64(c)])).collect();
+    for x in 0..r.range(2, 5) {
+        e0.push(Tuple::new(vec![Value::Int64(20 + x), Value::Int64(c + 1)]));
+    }
+    let e2: Vec<Tuple> = (0..n + 3).filter(|_| r.chance(2, 3)).map(|x| Tuple::new(vec![Value::Int64(x)])).collect();
+    let shared = |v: u32| Pos(0, vec![Term::Var(v), Term::Int(c)]);
+    let k = r.range(1, n - 2);
+    let mut clauses = vec![
+        Clause { head: 10, args: vec![HTerm::Var(0)], body: vec![shared(0), Cmp(CmpOp::Gt, Term::Var(0), Term::Int(k))] },
+        Clause { head: 11, args: vec![HTerm::Var(0)], body: vec![shared(0), Cmp(CmpOp::Le, Term::Var(0), Term::Int(r.range(0, n)))] },
+    ];
+    let q = match r.below(4) {
+        0 => Clause { head: 99, args: vec![HTerm::Agg(AggFun::Count, 0)], body: vec![shared(0)] },
+        1 => Clause { head: 99, args: vec![HTerm::Var(0)], body: vec![Pos(0, vec![Term::Var(0), Term::Wild]), Neg(10, vec![Term::Var(0)])] },
+        2 => Clause { head: 99, args: vec![HTerm::Var(0)], body: vec![Pos(2, vec![Term::Var(0)]), Neg(11, vec![Term::Var(0)]), Neg(10, vec![Term::Var(0)])] },
+        _ => Clause { head: 99, args: vec![HTerm::Var(0), HTerm::Var(1)], body: vec![Pos(10, vec![Term::Var(0)]), Pos(11, vec![Term::Var(1)]), Cmp(CmpOp::Lt, Term::Var(1), Term::Var(0))] },
+    };
+    if r.chance(1, 2) {
+        clauses.swap(0, 1);
+    }
+    clauses.push(q);
+    (Program { clauses }, vec![(0, e0), (2, e2)], vec!["shared-family"])
 }
